@@ -67,13 +67,15 @@ Qed.
 Lemma pointer_self_loop G T X xi nr v lp rps gi ptr :
   aget T X = Some nr -> nt_cell nr xi = (v, lp, rps) ->
   nth_error (rule_idx G X) lp = Some gi -> nth lp rps None = Some ptr ->
-  (exists ed, In ed (r_edges (get_rule G gi)) /\ is_term G (fst ed) = false /\ fst ed = X
-              /\ sel (rebuild (get_rule G gi) xi ptr) (snd ed) = xi) ->
+  (forall a, rhs_asst_code (get_rule G gi) xi ptr = Some a ->
+             exists ed, In ed (r_edges (get_rule G gi)) /\ is_term G (fst ed) = false /\ fst ed = X
+                        /\ sel a (snd ed) = xi) ->
   forall fuel, reconstruct_model G T fuel X xi = None.
 Proof.
-  intros H1 H2 H3 H4 (ed & Hed & Ht & HX & Hsel). induction fuel as [|f IH]; [reflexivity|].
+  intros H1 H2 H3 H4 H5. induction fuel as [|f IH]; [reflexivity|].
   rewrite reconstruct_S, H1, H2, H3, H4.
-  destruct (negb (Nat.eqb (length ptr) (length (summed (get_rule G gi))))); [reflexivity|].
+  destruct (rhs_asst_code (get_rule G gi) xi ptr) as [a|] eqn:Ha; [|reflexivity].
+  destruct (H5 a eq_refl) as (ed & Hed & Ht & HX & Hsel).
   rewrite (opt_all_map_none _ _ ed Hed); [reflexivity|].
   unfold recon_child. rewrite Ht, HX, Hsel, IH. reflexivity.
 Qed.
@@ -97,7 +99,7 @@ Proof.
     { vm_compute in Hnr. injection Hnr as <-. vm_compute in Hc. injection Hc as _ <- <-. split; reflexivity. }
     destruct Hlp as [-> Hptr].
     apply (pointer_self_loop lp_G lp_T_old 0 [] nr v 0 rps 0 [] Hnr Hc); [vm_compute; reflexivity | exact Hptr |].
-    exists (0, []). vm_compute. repeat split. left. reflexivity.
+    intros a _. exists (0, []). vm_compute. repeat split. left. reflexivity.
   - apply wf_reflect. vm_compute. reflexivity.
   - vm_compute. reflexivity.
 Qed.
